@@ -2,14 +2,14 @@
 (* Stimulus generation for C07.
    (1) Re-layouts: for every skeleton of IOEnv.SKEL_FILE, every member of Relayouts(sk) with at most MaxDevs
        deviations (GInit: one initial state per layout, exhaustive), or random members with a deviation at many
-       sites at once (WInit/WNext under -simulate; only deviations whose feature tags avoid AvoidTags).
+       sites at once (WInit/WNext under -simulate; with CleanOnly only deviations that are not known-finding triggers).
        Each layout leaves TLC as one JSON object: the physical lines, the block path the Layout machine assigns
        to every logical line, and the layout's feature tags.  The invariant RelayoutPreservesStructure is the
        spec-level theorem: the machine accepts every re-layout and assigns the paths of the canonical layout.
    (2) Accounting cases: StatementKinds x Contexts (AInit).                                                  *)
 EXTENDS Layout, Json, IOUtils
 CONSTANTS MaxDevs, PairWith, CleanOnly
-Skels == JsonDeserialize(IOEnv.SKEL_FILE)        \* <<[name, lines |-> <<[d, hk, id, sps]>>]>>
+Skels == JsonDeserialize(IOEnv.SKEL_FILE)        \* <<[name, lines |-> <<[d, hk, id, sps, kind, ref]>>]>>
 VARIABLES ski, devs, site
 gvars == <<ski, devs, site>>
 SK == Skels[ski].lines
